@@ -13,7 +13,7 @@ def claim(pid, level, engine, technique, text, note, ref):
     CLAIMED[pid] = dict(level=level, engine=engine, technique=technique, text=text, note=note, ref=ref)
 
 claim("C08", "exploration", "balance",
-      "runtime oracle over direct Plan calls: exhaustive small groups (incl. every sticky prior user data over a small universe), random large groups, rebalance chains, one-step changes from every settled 3x3 group, generation conflicts with a stale claimant, growth-and-joins steps (two settled members, then topics grow and 2-4 members with other subscriptions join), a member x partition sweep per strategy, subscription lists naming a topic twice, literal groups that once broke a strategy (hook bal.cycle marks plans cut by the sticky repetition guard)",
+      "runtime oracle over direct Plan calls: exhaustive small groups (incl. every sticky prior user data over a small universe), random large groups, rebalance chains, one-step changes from every settled 3x3 group, generation conflicts with a stale claimant, growth-and-joins steps (two settled members, then topics grow and 2-4 members with other subscriptions join), four literal chains in which the sticky movement tracker has to forget a movement (25 plans each), a member x partition sweep per strategy, subscription lists naming a topic twice, literal groups that once broke a strategy (hook bal.cycle marks plans cut by the sticky repetition guard)",
       "Every plan produced by range / round-robin / sticky on the enumerated and generated groups is checked by a validity oracle written from the statement (each subscribed partition exactly one owner, owner subscribed, no unknown member/partition). Small bounds are enumerated completely, large groups and chains of rebalances are sampled; panics and non-returning Plan calls are caught per call.",
       "Held on the inputs of the run only. Inputs are restricted to what consumerGroup.balance can build (every topic has a subscriber).",
       "DESIGN.md §7 C08")
